@@ -70,7 +70,7 @@ def reload_routes(gtext, name, inputs=()):
             gm = getattr(mod, 'GRAMMAR_MODEL', None)
             p = cls()
             # <Name>Parser.parse defaults to asmodel=True; compare like with like
-            return gm, (lambda t: p.parse(t, asmodel=False))
+            return gm, (lambda t, **kw: p.parse(t, asmodel=False, **kw))
         finally:
             tu.unload(mod)
     return [('json', via_json), ('pickle', via_pickle), ('source', via_source), ('pickle-used', via_pickle_used), ('json-used', via_json_used)]
@@ -79,7 +79,18 @@ def reload_routes(gtext, name, inputs=()):
 _n = [0]
 
 
-def check(gtext, inputs, only=None):
+def count_parseinfo(x, depth=0):
+    if depth > 40:
+        return 0
+    if isinstance(x, dict):
+        return int('parseinfo' in x and x['parseinfo'] is not None) + sum(count_parseinfo(v, depth + 1) for k, v in x.items() if k not in ('parseinfo', '__parseinfo__'))
+    if isinstance(x, (list, tuple)):
+        return sum(count_parseinfo(v, depth + 1) for v in x)
+    return 0
+
+
+def check(gtext, inputs, only=None, starts=None):
+    """starts: [(rule name, [texts])] - parses from rules other than the first one (start=<rule>) must agree as well"""
     import tatsu
     info = dict(accepted=0, rejected=0)
     _n[0] += 1
@@ -114,6 +125,22 @@ def check(gtext, inputs, only=None):
                                     original=a, reloaded=b), info
                     info['accepted'] += a[0] == 'ok'
                     info['rejected'] += a[0] != 'ok'
+                    if a[0] == 'ok' and '@@parseinfo :: True' in gtext:
+                        try:
+                            na, nb = count_parseinfo(m.parse(t)), count_parseinfo(parse(t))
+                        except Exception:
+                            na = nb = 0
+                        if na != nb:
+                            return dict(bucket=f'{route}:parseinfo-directive', oracle='the reloaded model keeps the directives (@@parseinfo :: True: equal ASTs carry parse information)',
+                                        input=t, parseinfo_entries_original=na, parseinfo_entries_reloaded=nb), info
+                for rule, texts in (starts or []):
+                    for t in texts:
+                        a = tu.outcome(lambda: m.parse(t, start=rule))
+                        b = tu.outcome(lambda: parse(t, start=rule))
+                        if not tu.same_outcome(a, b):
+                            return dict(bucket=f'{route}:behaviour-start', oracle='the reloaded model accepts the same inputs from every rule (start=<rule>) and returns equal ASTs', input=t,
+                                        start=rule, original=a, reloaded=b), info
+                        info['started'] = info.get('started', 0) + 1
             # asjson of parse results
             for t, a in zip(inputs, base):
                 if a[0] != 'ok':
@@ -316,7 +343,14 @@ def run_shard(sh, kind, n):
             if rnd.random() < 0.4:
                 lx = gen.near_miss(rnd, lx)
             inputs.append(gen.layout(rnd, lx, rnd.choice(['base', 'tight'])))
-        d, info = check(gtext, inputs)
+        starts = []
+        if len(rd) >= 2:
+            other = rnd.choice(rd[1:])['name']
+            try:
+                starts = [(other, [gen.layout(rnd, gen.derive(rnd, rmap, rmap[other]), 'base') for _ in range(2)])]
+            except Exception:
+                starts = []
+        d, info = check(gtext, inputs, starts=starts)
         if info.get('skip'):
             sh.note('skipped: ' + info['skip'])
             return
@@ -324,9 +358,11 @@ def run_shard(sh, kind, n):
         cls += [f'directive:{x[0]}' for x in directives]
         if keywords:
             cls.append('keywords:1' if len(keywords) == 1 else 'keywords:n')
+        if info.get('started'):
+            cls.append('parses from another rule (start=)')
         sh.case(gtext, info['accepted'] > 0 and info['rejected'] > 0, cls, sample=dict(grammar=gtext, inputs=inputs[:2]))
         if d is not None:
-            sh.fail(d['bucket'], dict(kind='grammar', rd=rd, directives=directives, keywords=keywords, inputs=inputs,
+            sh.fail(d['bucket'], dict(kind='grammar', rd=rd, directives=directives, keywords=keywords, inputs=inputs, starts=starts,
                                       route=d['bucket'].split(':')[0] if d['bucket'].split(':')[0] in ('json', 'pickle', 'source') else None), d)
     hyp_run(sh, gen.rnds(), body, n)
 
@@ -339,7 +375,7 @@ def replay(case):
         return d
     rd = c13._norm_rd(case['rd'])
     gtext = grammar_text(rd, [tuple(x) for x in case.get('directives', [])], case.get('keywords', []))
-    d, _ = check(gtext, case['inputs'], only=case.get('route'))
+    d, _ = check(gtext, case['inputs'], only=case.get('route'), starts=[(r, list(t)) for r, t in case.get('starts') or []])
     return d
 
 
